@@ -111,6 +111,30 @@ def _dict_memo(st, nxt):
     return var, store, key, expr
 
 
+def check_sweep_unbounded(prog, report):
+    """R-window, exit condition: grading stops only when a sweep marked
+    nothing.  A counted loop around the sweeps can stop with leaves still
+    outside the window, whatever its bound was meant to be (the bound would
+    have to hold for every reachable mesh and every sigma, K)."""
+    fi = prog.func(M, 'Mesh.refine_grading')
+    outer = None
+    for n in fi.node.body:
+        if isinstance(n, (ast.For, ast.While)) and any(
+                refine_call(m) is not None for m in ast.walk(n)):
+            outer = n
+            break
+    if outer is None:
+        raise AnalysisError('%s: sweep loop not found' % fi.where())
+    counted = isinstance(outer, ast.For) and isinstance(
+        outer.iter, ast.Call) and text(outer.iter.func) == 'range'
+    report.check(not counted, 'R-window', 'sweeps until nothing is marked',
+                 fi.where(outer),
+                 'the sweeps are repeated while a sweep marked something; '
+                 'a counted loop (`for ... in range(...)`) may end with '
+                 'leaves outside the window',
+                 construct='refine_grading: counted sweep loop')
+
+
 def check_window(prog, report):
     fi = prog.func(M, 'Mesh.refine_grading')
     params = fi.params
